@@ -17,7 +17,7 @@ var Sigma = []string{
 // a few bytes outside it (a lone carriage return, backslash, NUL, the pieces of the
 // two-byte operators, a single quote, and Unicode white space that is not ASCII).
 var EditSyms = append(append([]string{}, Sigma...), "\r", "\\", "\x00", "=", "-", ">", "'", "\u00a0", "\u2028", "\v",
-	"\u0085", "\ufeff", "e\u0301", "\U0001d49c", "\u200d", "task ", "\n#\n")
+	"\u0085", "\ufeff", "e\u0301", "\U0001d49c", "\u200d", "task ", "\n#\n", " \"%s\"", " \"50%\"")
 
 // Input is one generated input with its provenance.
 type Input struct {
@@ -264,6 +264,31 @@ func (s BigFileSpace) Gen(i int64, emit func(Input)) {
 	})
 }
 
+// RepeatSpace: a few files in which several names are defined more than once, each emitted
+// Times times. Whatever a parser does about duplicates, it has to do the same every time;
+// the order in which Go iterates a map is the one thing here that cannot be enumerated, so
+// it is varied by repetition (each input is parsed twice by the C08 oracle).
+type RepeatSpace struct {
+	Label string
+	Times int
+}
+
+var repeatTexts = []string{
+	"task a() {}\ntask b() {}\ntask a() {}\ntask b() {}\n",
+	"task a() {}\ntask a() {}\ntask b() {}\ntask b() {}\ntask c() {}\ntask c() {}\n",
+	"X := \"1\"\nY := \"1\"\nX := \"2\"\nY := \"2\"\ntask a(\"x\") -> X {}\ntask a(\"y\") -> Y {}\n",
+	"task a() {}\ntask b(a) {}\ntask c(b) {}\ntask c(a) {}\ntask b(c) {}\ntask a(b) {}\ntask d( {\n",
+	"task a(\"x\") {}\ntask b(\"x\", \"x\") -> (\"o\", \"o\") {}\ntask a(\"x\") {}\ntask b() {}\n",
+}
+
+func (s RepeatSpace) Name() string { return s.Label }
+func (s RepeatSpace) Count() int64 { return int64(len(repeatTexts)) }
+func (s RepeatSpace) Gen(i int64, emit func(Input)) {
+	for k := 0; k < s.Times; k++ {
+		emit(Input{Text: repeatTexts[i], Desc: s.Label})
+	}
+}
+
 // CanonicalBases renders every normal file of n statements over alpha canonically.
 func CanonicalBases(alpha []Stmt, n int, maxLen int) []string {
 	sp := StructSpace{Alpha: alpha, N: n}
@@ -348,6 +373,7 @@ func Spaces(tier string, forC06 bool, repo string) []Space {
 		bf.N = 2
 	}
 	sp = append(sp, bf)
+	sp = append(sp, RepeatSpace{Label: "repeated-definitions", Times: 150})
 	if thorough {
 		sp = append(sp, EditSpace{Label: "edit2", Bases: CanonicalBases(ReducedStatements(true), 1, 40), Pairs: true, Chunks: 32})
 	} else {
